@@ -39,6 +39,11 @@ CHECKS = [
         "4-node graphs are sampled by simulation in the quick tier and enumerated in the thorough tier; cycles through parameters are not expressible with well-sorted contributions and are not generated.",
         "TLA+ implementation-shaped model vs declarative SCC oracle, model checked by TLC under nondeterministic iteration order; spec->code replay on the graph API and on rendered block programs",
         "DESIGN.md §4 C08"),
+    chk("C11", "model_checking",
+        "spec/ZyLexer.tla models the parser-facing lexer over token classes (code, `/-`, `-/`, line comment swallowing markers, opaque string, unknown character); TLC checks NoSilentTruncation for every class string up to the bound and that the machine agrees with an independent reading of comment nesting. Every string is concretised and fed to the real Lexer and parser: token stream equal to the model's emitted positions, must-reject inputs rejected, regular inputs accepted with a root span covering first to last code token. Every repository source followed by 11 kinds of irregular junk must be rejected (5 comment-only suffixes accepted); `zydeco check|fmt|fmt --check` are bound on a subsample (failure status, file untouched).",
+        "Class strings up to length 5 (thorough 7); `Code` is concretised as an identifier so that every prefix is a complete term (the dangerous case). The pinned lexer violated the property (F4, F5) and was repaired by a fix: commit.",
+        "TLA+ lexer machine model checked by TLC (intended design; pinned design refuted); spec->code replay of every class string on the real lexer/parser; suffix family over the repository corpus",
+        "DESIGN.md §4 C11"),
 ]
 
 PENDING_REASON = "check not built yet (planned, see DESIGN.md)"
